@@ -107,12 +107,13 @@ Proof.
   - intros _. split; [destruct c1, c2, c3, c0; reflexivity|]. split.
     + assert (H60 : forall v, v = 1 \/ v = 2 \/ v = 3 \/ v = 4 -> awf_header o fc (amk 60 v HAll PyNone)).
       { intros v [E|[E|[E|E]]]; subst v; (split; [vm_compute; reflexivity|split; [vm_compute; discriminate|reflexivity]]). }
-      repeat apply Forall_app; split; try (destruct c1 || destruct c2 || destruct c3 || destruct c0);
-        repeat constructor; try (apply H60; auto).
-      all: try (destruct c2; repeat constructor; try (apply H60; auto)).
-      all: try (destruct c3; repeat constructor; try (apply H60; auto)).
-      all: try (destruct c0; repeat constructor; try (apply H60; auto)).
-    + unfold aw_class. destruct c1, c2, c3, c0; cbn; abytes; reflexivity.
+      assert (H1 : forall (c : bool) v, v = 1 \/ v = 2 \/ v = 3 \/ v = 4 ->
+                   Forall (awf_header o fc) (if c then [amk 60 v HAll PyNone] else [])).
+      { intros c v Hv. destruct c; [constructor; [apply H60; exact Hv|constructor]|constructor]. }
+      apply Forall_app; split; [apply H1; auto|].
+      apply Forall_app; split; [apply H1; auto|].
+      apply Forall_app; split; apply H1; auto.
+    + unfold aw_class. destruct c1, c2, c3, c0; cbn [app]; abytes; reflexivity.
   - intros [Hg [Hv [Hl [Hps [Hn [Hk [fi [Hf HF]]]]]]]].
     destruct (aw_items_data g v psize fi items Hf Hps HF) as [E1 [E2 E3]].
     assert (Hcnt : N.of_nat (length items) < 256 ^ psize).
